@@ -1,5 +1,5 @@
 # Conversion
-def totype(p; e): if p then . else fromjson | if p then . else e end end;
+def totype(p; e): if p then . else [fromjson] | if length == 1 and (.[0] | p) then .[0] else e end end;
 def tonumber : totype(isnumber ; error("cannot parse as number" ));
 def toboolean: totype(isboolean; error("cannot parse as boolean"));
 
